@@ -68,6 +68,9 @@ func wgField(call ssa.CallInstruction) string {
 func checkC16(c *Ctx) {
 	c.R.NotCover = append(c.R.NotCover, "'bounded time' as a duration", "cross-blocked publisher/subscriber pairs (the property's own carve-out)", "goroutine-leak freedom as a runtime count")
 	c.useRules(ruleL1, ruleL6, ruleP5, ruleP6, ruleP7, ruleP8, ruleP4)
+	c.useRules(ruleP9)
+	c.tokenIdentity()
+	c.sessionDeleteOnlyAtTeardown()
 	r := c.Roles()
 	if !c.Need("service.start (3 go statements)", r.Start, "teardown (WaitGroup.Wait + buffer.Close)", r.Stop,
 		"processor goroutine", r.Processor, "receiver goroutine", r.Receiver, "sender goroutine", r.Sender) {
